@@ -734,7 +734,7 @@ pub fn run_scenario(spec: &Value) -> Vec<Value> {
         "inputs": if with_inputs { inputs_json } else { json!([]) },
         "srcdata": SRC_DATA.with(|d| json!(*d.borrow())),
         "intags": rig.ins.iter().map(|p| p.tags()).collect::<Vec<_>>(),
-        "seed": seed, "id": spec["id"],
+        "seed": seed, "id": spec["id"], "gid": spec["gid"].as_i64().unwrap_or(0),
         "sync": spec["sync"].as_bool().unwrap_or(false), "close": spec["close"].as_bool().unwrap_or(false),
         "allow_err": spec["allow_err"].as_bool().unwrap_or(false),
         "infinite": spec["infinite"].as_bool().unwrap_or(false), "finite_source": spec["finite_source"].as_bool().unwrap_or(false),
